@@ -6,6 +6,7 @@ monitor's rise/fall counting; tied to the Go code by the differential run on the
 host.Set (public API) and the real Monitor with a scripted checker.
 -/
 import SamVerif.Proofs.HostSet
+import SamVerif.Proofs.HostSetConc
 namespace SamVerif.Props.C15
 open SamVerif.HostSet SamVerif.Proofs.HostSet
 
@@ -323,6 +324,150 @@ example :
     s.all 7 = none ∧ s.removed 1 = true := by
   refine ⟨by decide, by decide⟩
 
+/-! ### concurrent interleavings of marks with set operations -/
+
+theorem run_append (s : State) (xs ys : List Op) : run s (xs ++ ys) = run (run s xs) ys := by
+  unfold run; exact List.foldl_append
+
+/-- an atomic state is the result of a history of atomic operations -/
+theorem atomic_history (attr : Nat → Nat × Bool) (a : State) (h : Atomic attr a) :
+    ∃ aops : List Op, (∀ op ∈ aops, ∀ o ∈ objsOf op, WF attr o) ∧ a = run init aops := by
+  induction h with
+  | init => exact ⟨[], by simp, rfl⟩
+  | addOne o hw _ ih =>
+    obtain ⟨aops, hW, hE⟩ := ih
+    refine ⟨aops ++ [.add [o]], ?_, ?_⟩
+    · intro op hop x hx
+      simp only [List.mem_append, List.mem_singleton] at hop
+      rcases hop with hop | hop
+      · exact hW op hop x hx
+      · subst hop; simp only [objsOf, List.mem_singleton] at hx; subst hx; exact hw
+    · rw [run_append, ← hE]; rfl
+  | removeOne o hw _ ih =>
+    obtain ⟨aops, hW, hE⟩ := ih
+    refine ⟨aops ++ [.remove [o]], ?_, ?_⟩
+    · intro op hop x hx
+      simp only [List.mem_append, List.mem_singleton] at hop
+      rcases hop with hop | hop
+      · exact hW op hop x hx
+      · subst hop; simp only [objsOf, List.mem_singleton] at hx; subst hx; exact hw
+    · rw [run_append, ← hE]; rfl
+  | mark o p hw _ ih =>
+    obtain ⟨aops, hW, hE⟩ := ih
+    refine ⟨aops ++ [.mark o p], ?_, ?_⟩
+    · intro op hop x hx
+      simp only [List.mem_append, List.mem_singleton] at hop
+      rcases hop with hop | hop
+      · exact hW op hop x hx
+      · subst hop; simp only [objsOf, List.mem_singleton] at hx; subst hx; exact hw
+    · rw [run_append, ← hE]; rfl
+
+/-- **Concurrent marks refine atomic ones.** `MarkHostHealthy`/`MarkHostUnhealthy` flip the flag
+outside the lock and update the maps under it; additions, removals and replacements (which hold
+the lock throughout) may run in between, in any number and order, for any objects.  After every
+such interleaving (at most one mark in flight per host object, as the monitor guarantees) there
+is a history of *atomic* operations whose state has exactly the same members, maps, latches and
+registry, and the same flags except for the marks still in flight. -/
+theorem concurrent_refines_atomic (attr : Nat → Nat × Bool) (cops : List COp) (c : CS)
+    (hw : ∀ op ∈ cops, ∀ o ∈ op.objs, WF attr o) (h : crun { st := init } cops = some c) :
+    ∃ aops : List Op, (∀ op ∈ aops, ∀ o ∈ objsOf op, WF attr o) ∧
+      c.st = withFlag (run init aops) c.st.flag ∧
+      ∀ i, c.pend i = false → (run init aops).flag i = c.st.flag i := by
+  obtain ⟨a, ha, hst, hag⟩ := ghost_run attr cops _ c hw (ghost_init attr) h
+  obtain ⟨aops, hW, hE⟩ := atomic_history attr a ha
+  exact ⟨aops, hW, by rw [← hE]; exact hst, by rw [← hE]; exact hag⟩
+
+/-- **With no mark in flight the usable hosts are exactly the healthy members of the preferred
+tier** — after any concurrent interleaving. -/
+theorem concurrent_usable_correct (attr : Nat → Nat × Bool) (cops : List COp) (c : CS)
+    (hw : ∀ op ∈ cops, ∀ o ∈ op.objs, WF attr o) (h : crun { st := init } cops = some c)
+    (hrest : ∀ i, c.pend i = false) : healthy c.st = usableSpec c.st := by
+  obtain ⟨a, ha, hst, hag⟩ := ghost_run attr cops _ c hw (ghost_init attr) h
+  have hf : a.flag = c.st.flag := funext fun i => hag i (hrest i)
+  have : c.st = a := by rw [hst, ← hf]; rfl
+  rw [this]
+  exact healthy_eq_spec a (atomic_inv attr a ha).1
+
+theorem mem_insertByAddr (p y : Nat × Nat) : ∀ (l : List (Nat × Nat)), y ∈ insertByAddr p l → y = p ∨ y ∈ l := by
+  intro l
+  induction l with
+  | nil => intro hy; simp [insertByAddr] at hy; exact Or.inl hy
+  | cons z zs ih =>
+    intro hy
+    simp only [insertByAddr] at hy
+    split at hy
+    · simp only [List.mem_cons] at hy
+      rcases hy with hy | hy
+      · right; simp [hy]
+      · rcases ih hy with h | h
+        · left; exact h
+        · right; simp [h]
+    · split at hy
+      · right; exact hy
+      · simp only [List.mem_cons] at hy
+        rcases hy with hy | hy | hy
+        · left; exact hy
+        · right; simp [hy]
+        · right; simp [hy]
+
+theorem mem_entries (s : State) (m : Nat → Option Nat) (y : Nat × Nat) (h : y ∈ entries s m) : m y.1 = some y.2 := by
+  unfold entries at h
+  have key : ∀ (l : List (Nat × Nat)), y ∈ l.foldr insertByAddr [] → y ∈ l := by
+    intro l
+    induction l with
+    | nil => intro hy; simp at hy
+    | cons x xs ih =>
+      intro hy
+      simp only [List.foldr_cons] at hy
+      rcases mem_insertByAddr x y _ hy with e | e
+      · simp [e]
+      · exact List.mem_cons_of_mem _ (ih e)
+  have := key _ h
+  simp only [List.mem_filterMap, Option.map_eq_some_iff] at this
+  obtain ⟨a, _, i, hi, he⟩ := this
+  subst he
+  exact hi
+
+/-- **Even with marks in flight, only members are reported** — whatever `Healthy()` returns at any
+point of any interleaving is an object currently stored under that address (so a removed host is
+never reported or selected), and it is flagged healthy unless a mark on it is in flight. -/
+theorem concurrent_reports_members_only (attr : Nat → Nat × Bool) (cops : List COp) (c : CS)
+    (hw : ∀ op ∈ cops, ∀ o ∈ op.objs, WF attr o) (h : crun { st := init } cops = some c)
+    (y : Nat × Nat) (hy : y ∈ healthy c.st) :
+    c.st.all y.1 = some y.2 ∧ (c.pend y.2 = false → c.st.flag y.2 = true) := by
+  obtain ⟨a, ha, hst, hag⟩ := ghost_run attr cops _ c hw (ghost_init attr) h
+  have hi := (atomic_inv attr a ha).1
+  have hh : healthy c.st = healthy a := by rw [hst]; rfl
+  have hall : c.st.all = a.all := by rw [hst]; rfl
+  rw [hh] at hy
+  have hmem : a.all y.1 = some y.2 ∧ a.flag y.2 = true := by
+    unfold healthy at hy
+    simp only at hy
+    split at hy
+    · have := (hi.backup y.1 y.2).mp (mem_entries a a.hBackup y hy); exact ⟨this.1, this.2.2⟩
+    · have := (hi.main y.1 y.2).mp (mem_entries a a.hMain y hy); exact ⟨this.1, this.2.2⟩
+  exact ⟨by rw [hall]; exact hmem.1, fun hp => by rw [← hag y.2 hp]; exact hmem.2⟩
+
+/-- the premises are satisfiable and the interleaving matters: host 1 (address 7) is marked
+unhealthy; between the two halves of the mark it is removed and re-added as a fresh object -/
+example : ∃ c, crun { st := init }
+    [.add [⟨1, 7, true⟩], .cas ⟨1, 7, true⟩ false, .remove [⟨1, 7, true⟩], .add [⟨2, 7, true⟩], .apply ⟨1, 7, true⟩] = some c
+    ∧ healthy c.st = [(7, 2)] := ⟨_, rfl, by decide⟩
+
+/-- **Why one mark per object at a time matters** (the monitor checks every host once per round
+and waits for the round to finish): were two marks of the same object allowed to overlap — the
+CAS of "unhealthy", the CAS of "healthy", then the locked halves in that order — the object would
+end flagged healthy, a member, and missing from the usable hosts. -/
+theorem overlapping_marks_would_lose_a_host :
+    let o : Obj := ⟨1, 7, true⟩
+    let s0 := add init [o]
+    let s1 := markCas s0 o false
+    let s2 := markCas s1 o true
+    let s3 := (markApply s2 o true).1
+    let s4 := (markApply s3 o false).1
+    s4.flag 1 = true ∧ s4.all 7 = some 1 ∧ healthy s4 = [] ∧ usableSpec s4 = [(7, 1)] := by
+  decide
+
 end SamVerif.Props.C15
 
 #print axioms SamVerif.Props.C15.usable_correct
@@ -331,3 +476,7 @@ end SamVerif.Props.C15
 #print axioms SamVerif.Props.C15.removed_not_member
 #print axioms SamVerif.Props.C15.remove_latches_stored
 #print axioms SamVerif.Props.C15.flip_needs_run
+#print axioms SamVerif.Props.C15.concurrent_refines_atomic
+#print axioms SamVerif.Props.C15.concurrent_usable_correct
+#print axioms SamVerif.Props.C15.concurrent_reports_members_only
+#print axioms SamVerif.Props.C15.overlapping_marks_would_lose_a_host
